@@ -4,30 +4,49 @@
 (* several filters from the pool in every spelling (positional dicts, callables, ** keywords,    *)
 (* exc =).  The calls are executed by the MECHANISM of IncSession.tla on the CURRENT pool; the    *)
 (* invariants say what the statement says: the pool and the table are never changed and every    *)
-(* result is what the LAW gives for the ORIGINAL contents of the filters, however the condition  *)
-(* was spelled and whatever was called before.                                                   *)
+(* result is what the LAW gives for the contents the caller gave the filters, however the        *)
+(* condition was spelled and whatever was called before.                                         *)
 (* A call may also be made on the table the previous call returned (on = "last"): idempotence     *)
 (* and complementarity as histories,  r = t.inc(q1, q2); r.inc(q1, q2) = r; r.exc(q1, q2) empty.  *)
+(* ROUND 4: the CALLER acts between the calls too - action Edit: he edits, in place, a list of    *)
+(* admissible values or a dict he handed to the previous call (L.append / pop / clear, q[c] = v,  *)
+(* del q[c]); later calls take the edited objects (src = "live": the law is applied to what they  *)
+(* hold NOW), or FRESH objects equal by value to what the pool held BEFORE the edit (src = "old": *)
+(* the law is applied to the old contents - a memo keyed on the contents but holding the caller's *)
+(* object answers these with the new contents), on the table, on its previous result, or on a     *)
+(* SECOND table (on = "u").  The naming of the columns (nm) and the realisation of the callables  *)
+(* (field real of a pool object) are data of the case; the law sees neither.                      *)
 (* The same machine, with the history as a variable, is the source of the S2C replay: cfgs       *)
 (* MC_IncSession_gen*.cfg print every history together with the outcomes the law allows and the  *)
 (* pool the caller must still see after every call; MC_IncSession_sim.cfg draws longer ones.     *)
 (* MC_IncSession_quick.cfg does both in one run (clauses checked on every history, no VIEW);      *)
-(* MC_IncSession_thorough.cfg checks the VIEW quotient (hist hidden) with 3 filters per call.     *)
+(* so do _edit / _names / _reals (quick slices of the round-4 dimensions) and their thorough      *)
+(* variants _editT / _namesT.  MC_IncSession_thorough.cfg checks the VIEW quotient (hist hidden)  *)
+(* with 3 filters per call.                                                                       *)
 (* cfg MC_IncSession_adopt.cfg (Adopt = TRUE, `filters` is the caller's lone dict) must violate  *)
 (* PoolUntouched: the model is able to express what it forbids.                                  *)
 EXTENDS IncSession, TLC, Json
 
-CONSTANTS MaxCalls,     \* length of the histories
+CONSTANTS MaxCalls,     \* calls per history
           MaxArgs,      \* filters per call (positional + keywords)
-          FreeCalls,    \* the first FreeCalls calls of a history are arbitrary, the later ones take <= 1 positional filter ("probes")
+          FreeCalls,    \* the first FreeCalls calls of a history are arbitrary, the later ones take <= 1 filter ("probes")
                         \* or repeat / complement the previous call on its own result ("echo")
-          Scope,        \* "quick" | "thorough": which tables and pools
-          Adopt         \* mechanism variant, see IncSession.tla
+          Scope,        \* "quick" | "thorough" | "edit" | "names" | "reals": which tables and pools
+          Adopt,        \* mechanism variant, see IncSession.tla
+          MaxEdits,     \* edits by the caller per history (0: none)
+          MinEdits,     \* generator: only histories with at least so many edits are printed
+          Probes,       \* FALSE: after the free calls only echoes
+          FirstOps,     \* the operations of the free calls
+          Srcs,         \* subset of {"live", "old"}
+          Ons,          \* subset of {"t", "last", "u"}
+          NameIds,      \* the namings of the columns
+          Gen           \* TRUE: keep the history (generator configurations)
 
-VARIABLES t, pool, pool0, last, opd, hist
-\* opd = the table the last call was made on ACCORDING TO THE LAW (t itself, or what the law says the call before returned)
-vars == <<t, pool, pool0, last, opd, hist>>
-View == <<t, pool, pool0, last, opd>>
+VARIABLES t, nm, pool, pool0, prev, last, opd, hist
+\* pool0 = what the caller's objects hold by his own doing (initial contents and his edits); pool = what they really hold
+\* prev = pool0 as it was before the caller's latest edit; opd = the table the last call was made on ACCORDING TO THE LAW
+vars == <<t, nm, pool, pool0, prev, last, opd, hist>>
+View == <<t, nm, pool, pool0, prev, last, opd>>
 
 Cols2 == <<"a", "b">>
 \* every combination of the a-values with the b-values, one row each: each row tells two filters apart
@@ -41,7 +60,7 @@ G8 == Grid(<<VStr("ab"), VNaN(1), VInt(1), VInf(1)>>, <<VStr("b"), VNaN(3)>>)
 Dup == [cols |-> Cols2, rows |-> <<[a |-> VInt(1), b |-> VStr("b")], [a |-> None, b |-> VStr("b")], [a |-> VInt(1), b |-> VStr("b")]>>]
 
 CVal(v)   == <<"val", v>>
-CList(vs) == <<"list", vs>>
+CL(id, vs) == <<"list", vs, id>>          \* the list OBJECT id holding vs
 CRe(r)    == <<"re", r>>
 A(cc) == FDict(<<<<"a", cc>>>>)
 B(cc) == FDict(<<<<"b", cc>>>>)
@@ -50,72 +69,158 @@ BA(cb, ca) == FDict(<<<<"b", cb>>, <<"a", ca>>>>)      \* the same conditions, i
 
 PoolsQuick == {
     <<A(CVal(VInt(1))), B(CVal(VStr("b"))), FPred("a_eq_b")>>,
-    <<A(CList(<<VInt(1), VStr("ab")>>)), B(CList(<<VStr("b"), None>>)), FDict(<<>>)>>,
+    <<A(CL(1, <<VInt(1), VStr("ab")>>)), B(CL(2, <<VStr("b"), None>>)), FDict(<<>>)>>,
     <<A(CVal(None)), B(CRe("starts_b")), FPred("b_is_str")>>,
     <<A(CVal(VNaN(2))), B(CVal(VInt(1))), BA(CVal(VInt(1)), CVal(VNaN(2)))>>,
-    <<AB(CVal(VInt(1)), CVal(VStr("b"))), B(CVal(VStr("b"))), A(CList(<<None, VInt(1)>>))>> }
+    <<AB(CVal(VInt(1)), CVal(VStr("b"))), B(CVal(VStr("b"))), A(CL(1, <<None, VInt(1)>>))>> }
 PoolsMore == {
-    <<A(CRe("has_a")), B(CList(<<>>)), FPred("a_is_none")>>,
-    <<A(CVal(VFlt(1, 1))), B(CList(<<VStr("ba"), VNaN(3)>>)), FPred("a_eq_b")>>,                 \* 1.0 selects the int 1 too
+    <<A(CRe("has_a")), B(CL(1, <<>>)), FPred("a_is_none")>>,
+    <<A(CVal(VFlt(1, 1))), B(CL(1, <<VStr("ba"), VNaN(3)>>)), FPred("a_eq_b")>>,                 \* 1.0 selects the int 1 too
     <<A(CVal(VInf(1))), B(CVal(None)), AB(CVal(VInf(1)), CVal(None))>>,
-    <<A(CList(<<VNaN(1), None>>)), B(CRe("any")), FDict(<<>>)>>,
-    <<AB(CList(<<VStr("ab"), VInt(1)>>), CRe("starts_b")), A(CList(<<VStr("ab"), VInt(1)>>)), FPred("never")>>,
+    <<A(CL(1, <<VNaN(1), None>>)), B(CRe("any")), FDict(<<>>)>>,
+    <<AB(CL(1, <<VStr("ab"), VInt(1)>>), CRe("starts_b")), A(CL(1, <<VStr("ab"), VInt(1)>>)), FPred("never")>>,   \* ONE list in two dicts
     <<FPred("always"), A(CVal(VStr("ab"))), B(CVal(VStr("ba")))>>,
     <<FDict(<<>>), FDict(<<>>), B(CVal(VInt(1)))>> }
+\* pools whose objects the caller edits: a list held by two dicts, lists of one value, plain dicts next to a callable
+PoolsEdit == {
+    <<A(CL(1, <<VInt(1), VStr("ab")>>)), B(CL(2, <<VStr("b"), None>>)), AB(CL(1, <<VInt(1), VStr("ab")>>), CVal(VStr("b")))>>,
+    <<A(CVal(VInt(1))), B(CVal(VStr("b"))), FPred("a_eq_b")>> }
+PoolsEditMore == {
+    <<A(CL(1, <<None>>)), AB(CVal(VInt(1)), CL(2, <<VInt(1)>>)), B(CRe("starts_b"))>>,
+    <<AB(CL(1, <<VNaN(1), VInt(1)>>), CL(1, <<VNaN(1), VInt(1)>>)), B(CVal(VInt(1))), FDict(<<>>)>> }   \* one list under two columns
+PoolsNames == {
+    <<A(CVal(VInt(1))), B(CL(1, <<VStr("b"), None>>)), FPred("a_eq_b")>>,
+    <<AB(CVal(None), CRe("starts_b")), A(CL(1, <<>>)), FPred("b_is_str")>> }
+\* the realisations of a callable
+Reals == <<"lambda", "def", "partial", "partial_kw", "callobj", "bound", "classm", "try_false", "try_none", "kwargs_support">>
+PoolsReals == {<<FPredR("a_eq_b", Reals[k]), B(CVal(VStr("b"))), FPredR("a_is_none", Reals[k + 1])>> : k \in {1, 3, 5, 7, 9}}
 PoolsThorough == PoolsQuick \cup PoolsMore
 
-TableSet == IF Scope = "quick" THEN {G6, Empty2, Single} ELSE {G4, G8, Dup, Empty2, Single}
-PoolSet  == IF Scope = "quick" THEN PoolsQuick ELSE PoolsThorough
+TableSet == CASE Scope = "quick" -> {G6, Empty2, Single}
+              [] Scope = "edit"  -> {G6}
+              [] Scope = "editT" -> {G6, Dup}
+              [] Scope \in {"names", "reals"} -> {G6, Empty2, Single}
+              [] OTHER -> {G4, G8, Dup, Empty2, Single}
+PoolSet  == CASE Scope = "quick" -> PoolsQuick
+              [] Scope = "edit"  -> PoolsEdit
+              [] Scope = "editT" -> PoolsEdit \cup PoolsEditMore
+              [] Scope = "names" -> PoolsNames
+              [] Scope = "reals" -> PoolsReals
+              [] Scope = "all"   -> PoolsThorough \cup PoolsEdit \cup PoolsEditMore \cup PoolsReals
+              [] OTHER -> PoolsThorough
+
+\* ---- namings: the names the real table gives to the law's columns a, b (c, d: the wider tables of the C2S side) ----
+\* names that are parameters / locals of the code under test (data, columns, key, value, function, functions, filters,
+\* self, exc, find, item, row, res), the two names swapped, names that are no identifiers
+NmF(a, b, c, d) == [a |-> a, b |-> b, c |-> c, d |-> d]
+Nm(i) == CASE i = 0 -> [f |-> NmF("a", "b", "c", "d"), ident |-> TRUE]
+           [] i = 1 -> [f |-> NmF("data", "key", "columns", "value"), ident |-> TRUE]
+           [] i = 2 -> [f |-> NmF("columns", "data", "key", "item"), ident |-> TRUE]
+           [] i = 3 -> [f |-> NmF("function", "value", "data", "functions"), ident |-> TRUE]
+           [] i = 4 -> [f |-> NmF("self", "filters", "exc", "find"), ident |-> TRUE]
+           [] i = 5 -> [f |-> NmF("b", "a", "d", "c"), ident |-> TRUE]
+           [] i = 6 -> [f |-> NmF("exc", "find", "self", "res"), ident |-> TRUE]
+           [] i = 7 -> [f |-> NmF("functions", "row", "item", "keys"), ident |-> TRUE]
+           [] i = 8 -> [f |-> NmF("x y", "1", "a", "-"), ident |-> FALSE]
+           [] i = 9 -> [f |-> NmF("key", "columns", "value", "data"), ident |-> TRUE]
+NamingInjective == \A x \in DOMAIN Nm(nm).f, y \in DOMAIN Nm(nm).f : x # y => Nm(nm).f[x] # Nm(nm).f[y]
 
 Slots == 1..3
 PosU  == UNION {[1..k -> Slots] : k \in 0..MaxArgs}
 Forms == {f \in [pos : PosU, kw : 0..3] : NArgs(f) <= MaxArgs}
 \* (the fields are written in the order in which TLC keeps them once normalised: records are sorted in place, and a record
 \*  printed by one worker while being sorted has been seen to lose a field)
-MkCall(op, col, f, x, on) == [pos |-> f.pos, kw |-> f.kw, op |-> op, col |-> col, x |-> x, on |-> on]
-NoCall == [pos |-> <<>>, kw |-> 0, op |-> "", col |-> "", x |-> 0, on |-> "t"]
-Probe(c) == Len(c.pos) <= 1 /\ c.kw = 0 /\ c.x = 0 /\ c.on = "t"     \* t.inc(q), t.exc(f), t.find_a(q), t.one_or_none(q), t.inc()
+MkCall(op, col, f, x, on, src) == [pos |-> f.pos, kw |-> f.kw, op |-> op, col |-> col, x |-> x, on |-> on, src |-> src]
+NoCall == [pos |-> <<>>, kw |-> 0, op |-> "", col |-> "", x |-> 0, on |-> "t", src |-> "live"]
+\* t.inc(q), t.exc(f), t.find_a(q), t.one_or_none(q), t.inc(); once the caller has edited something also t.inc(**q), and on the second table
+Probe(c) == /\ c.x = 0 /\ c.on \in {"t", "u"} /\ NArgs(c) <= 1
+            /\ (c.kw # 0 \/ c.on = "u") => last.e > 0
 \* the previous call repeated (or complemented) on its own result with the very same arguments: r = t.inc(q1, q2); r.inc(q1, q2)
-Echo(c) == c.on = "last" /\ c.op \in {"inc", "exc"} /\ c.pos = last.call.pos /\ c.kw = last.call.kw
+Echo(c) == c.on = "last" /\ c.op \in {"inc", "exc"} /\ c.pos = last.call.pos /\ c.kw = last.call.kw /\ c.src = "live" /\ last.call.src = "live"
 
+\* tables of <= 1 row only get single calls (the extremes); the histories run on the tables that tell filters apart
+Depth(tt) == IF NRows(tt) <= 1 THEN 1 ELSE MaxCalls
 Called == last.call.op # ""
 \* a call can be made on the previous result when the law says that result is one definite table
-LawLast == Outcomes(opd, pool0, last.call)
+LawLast == Outcomes(opd, last.args, last.call)
 Chainable == Called /\ Cardinality(LawLast) = 1 /\ \A o \in LawLast : o.kind = "table"
 
-Init == /\ t \in TableSet /\ pool0 \in PoolSet /\ pool = pool0
-        /\ last = [call |-> NoCall, out |-> [kind |-> "none"], echo |-> ""] /\ opd = t /\ hist = <<>>
+Init == /\ t \in TableSet /\ pool0 \in PoolSet /\ pool = pool0 /\ prev = pool0 /\ nm \in NameIds
+        /\ last = [call |-> NoCall, out |-> [kind |-> "none"], echo |-> "", n |-> 0, e |-> 0, dirty |-> FALSE, touched |-> {}, args |-> pool0]
+        /\ opd = t /\ hist = <<>>
 
-Do(c) == /\ Len(hist) < MaxCalls
-         /\ Len(hist) >= FreeCalls => (Probe(c) \/ Echo(c))
+Do(c) == /\ last.n < MaxCalls
+         /\ c.src \in Srcs /\ c.on \in Ons
+         /\ last.n < FreeCalls => c.op \in FirstOps
+         /\ last.n >= 1 => last.e >= MinEdits                           \* (generator focus: histories in which the caller edits)
+         /\ last.n >= FreeCalls => ((Probes /\ Probe(c)) \/ Echo(c))
+         /\ c.src = "old" => (last.e > 0 /\ c.on # "last")
+         /\ c.on = "u" => last.n >= 1                                   \* the second table comes second
+         /\ last.dirty => UsedSlots(c) \cap last.touched # {}          \* right after an edit: a call that can see it
          /\ c.on = "last" => Chainable
-         /\ InDomain(t, pool0, c)
-         /\ LET lawopd  == IF c.on = "t" THEN t ELSE TableOf(CHOOSE o \in LawLast : TRUE, t.cols)
-                 mechopd == IF c.on = "t" THEN t ELSE TableOf(last.out, t.cols)         \* the object the code really returned
-                 m == MechCall(mechopd, pool, c, Adopt)
-            IN  pool' = m.pool /\ opd' = lawopd
-                /\ last' = [call |-> c, out |-> m.out, echo |-> IF Echo(c) THEN last.call.op ELSE ""]
-         /\ hist' = Append(hist, c)
-         /\ UNCHANGED <<t, pool0>>
+         /\ LET lawargs  == IF c.src = "live" THEN pool0 ELSE prev
+                mechargs == IF c.src = "live" THEN pool ELSE prev              \* fresh objects with the old contents
+                lawopd   == CASE c.on = "t" -> t [] c.on = "u" -> Other(t) [] OTHER -> TableOf(CHOOSE o \in LawLast : TRUE, t.cols)
+                mechopd  == CASE c.on = "t" -> t [] c.on = "u" -> Other(t) [] OTHER -> TableOf(last.out, t.cols)   \* the object the code really returned
+                m == MechCall(mechopd, mechargs, c, Adopt)
+            IN  /\ InDomain(t, lawargs, c) /\ Expressible(Nm(nm), t, lawargs, c)
+                /\ pool' = IF c.src = "live" THEN m.pool ELSE pool
+                /\ opd' = lawopd
+                /\ last' = [call |-> c, out |-> m.out, echo |-> IF Echo(c) /\ ~last.dirty THEN last.call.op ELSE "",
+                            n |-> last.n + 1, e |-> last.e, dirty |-> FALSE, touched |-> last.touched, args |-> lawargs]
+                /\ hist' = IF Gen THEN Append(hist, [call |-> c, opd |-> IF c.on = "last" THEN TabOut(lawopd) ELSE [kind |-> c.on],
+                                                     want |-> SetToSeq(Outcomes(lawopd, lawargs, c)), snap |-> pool0,
+                                                     args |-> IF c.src = "old" THEN prev ELSE <<>>])
+                           ELSE hist
+         /\ UNCHANGED <<t, nm, pool0, prev>>
 
-Ons == {"t", "last"}
-CallInc  == \E f \in Forms, on \in Ons : Do(MkCall("inc", "", f, 0, on))
-CallExc  == \E f \in Forms, on \in Ons : Do(MkCall("exc", "", f, 0, on))
-CallFind == \E f \in Forms, on \in Ons, cl \in {"a", "b"} : Do(MkCall("find", cl, f, 0, on))
-CallOne  == \E f \in Forms, on \in Ons, x \in 0..3 : (x # 0 => f.kw = 0 /\ NArgs(f) < MaxArgs) /\ Do(MkCall("one", "", f, x, on))
-Next == CallInc \/ CallExc \/ CallFind \/ CallOne
+OnSet == {"t", "last", "u"}
+SrcSet == {"live", "old"}
+CallInc  == \E f \in Forms, on \in OnSet, s \in SrcSet : Do(MkCall("inc", "", f, 0, on, s))
+CallExc  == \E f \in Forms, on \in OnSet, s \in SrcSet : Do(MkCall("exc", "", f, 0, on, s))
+CallFind == \E f \in Forms, on \in OnSet, s \in SrcSet, cl \in {"a", "b"} : Do(MkCall("find", cl, f, 0, on, s))
+CallOne  == \E f \in Forms, on \in OnSet, s \in SrcSet, x \in 0..3 : (x # 0 => f.kw = 0 /\ NArgs(f) < MaxArgs) /\ Do(MkCall("one", "", f, x, on, s))
+
+\* ---- the caller's own action: an in-place edit of an object he handed to the previous call ----------------
+MkEdit(what, id, slot, col, new) == [op |-> "edit", what |-> what, id |-> id, slot |-> slot, col |-> col, new |-> new]
+ListEdits(vs) == ({<<>>, Append(vs, None)} \cup (IF vs = <<>> THEN {} ELSE {Front(vs)})) \ {vs}     \* L.clear(), L.append(None), L.pop()
+HasCol(items, col) == \E k \in 1..Len(items) : items[k][1] = col
+CondAt(items, col) == items[CHOOSE k \in 1..Len(items) : items[k][1] = col][2]
+EditMenu ==
+    LET used  == {s \in UsedSlots(last.call) : IsDict(pool0[s])}
+        lists == UNION {ListIds(pool0[s].items) : s \in used}
+    IN  {MkEdit("list", id, 0, "", new) : id \in lists, new \in UNION {ListEdits(ListNow(pool0, i)) : i \in lists}}
+        \cup {MkEdit("set", 0, s, col, cc) : s \in used, col \in {"a", "b"}, cc \in {CVal(None), CVal(VInt(1))}}
+        \cup {MkEdit("del", 0, s, col, <<>>) : s \in used, col \in {"a", "b"}}
+EditOK(e) ==
+    CASE e.what = "list" -> e.new \in ListEdits(ListNow(pool0, e.id))
+      [] e.what = "set"  -> IF HasCol(pool0[e.slot].items, e.col)
+                            THEN e.new = (IF CondAt(pool0[e.slot].items, e.col) = CVal(None) THEN CVal(VInt(1)) ELSE CVal(None))   \* q[c] = another value
+                            ELSE e.new = CVal(VInt(1))                                                                        \* q[c] = v, a new key
+      [] e.what = "del"  -> HasCol(pool0[e.slot].items, e.col)
+Edit == /\ Called /\ last.e < MaxEdits /\ last.n < Depth(t) /\ ~last.dirty /\ last.call.src = "live"
+        /\ \E e \in EditMenu :
+              /\ EditOK(e)
+              /\ pool0' = ApplyEdit(pool0, e) /\ pool' = ApplyEdit(pool, e) /\ prev' = pool0
+              /\ last' = [last EXCEPT !.e = @ + 1, !.dirty = TRUE, !.touched = Touched(pool0, e)]
+              /\ hist' = IF Gen THEN Append(hist, [call |-> e, opd |-> [kind |-> "t"], want |-> <<>>, snap |-> pool0', args |-> <<>>]) ELSE hist
+        /\ UNCHANGED <<t, nm, opd>>
+
+Next == CallInc \/ CallExc \/ CallFind \/ CallOne \/ Edit
+NextNoEdit == CallInc \/ CallExc \/ CallFind \/ CallOne
 
 \* ---- what the statement says, clause by clause -----------------------------------------------
-LastCond == CondOf(pool0, last.call)
+LastCond == CondOf(last.args, last.call)
 PoolUntouched    == pool = pool0
-ResultByOriginal == Called => last.out \in Outcomes(opd, pool0, last.call)
-ArgumentsLeftAlone == [][pool' = pool /\ t' = t]_vars
+ResultByOriginal == Called => last.out \in Outcomes(opd, last.args, last.call)
+\* only the caller changes his objects
+ArgumentsLeftAlone == [][t' = t /\ (last'.e = last.e => pool' = pool) /\ (last'.e # last.e => \E e \in EditMenu : pool' = ApplyEdit(pool, e))]_vars
 \* the result depends on the condition only, not on its spelling: every other in-domain spelling of the same
-\* condition, run by the mechanism on the original pool, lands in the same set of allowed outcomes
+\* condition, run by the mechanism on the same contents, lands in the same set of allowed outcomes
 SpellingIrrelevant ==
     Called => \A f \in Forms :
-        LET c2 == MkCall(last.call.op, last.call.col, f, last.call.x, last.call.on) IN
-        (InDomain(opd, pool0, c2) /\ CondOf(pool0, c2) = LastCond) => MechCall(opd, pool0, c2, FALSE).out \in Outcomes(opd, pool0, last.call)
+        LET c2 == MkCall(last.call.op, last.call.col, f, last.call.x, last.call.on, last.call.src) IN
+        (InDomain(opd, last.args, c2) /\ CondOf(last.args, c2) = LastCond) => MechCall(opd, last.args, c2, FALSE).out \in Outcomes(opd, last.args, last.call)
 RECURSIVE Weave(_, _, _, _)
 Weave(rows, xs, ys, cd) ==
     IF rows = <<>> THEN xs = <<>> /\ ys = <<>>
@@ -127,18 +232,22 @@ SessIdempotent == Called => /\ IncC(IncC(opd, LastCond), LastCond) = IncC(opd, L
 SessKeepsCols  == (Called /\ last.out.kind = "table") => last.out.cols = t.cols /\ Rectangular(last.out)
 NoCondIsIdentity == (Called /\ last.call.op = "inc" /\ NoCondC(LastCond)) => last.out = TabOut(opd)
 \* idempotence as a history: the same call again on its own result returns that result, the complementary call nothing
-\* (last.echo = the operation whose result this call was repeated on, with the very same arguments)
+\* (last.echo = the operation whose result this call was repeated on, with the very same arguments and no edit in between)
 EchoLaw == (Called /\ last.echo # "" /\ ~MixedC(LastCond)) =>
                IF last.call.op = last.echo \/ NoCondC(LastCond) THEN last.out = TabOut(opd) ELSE last.out.rows = <<>>
+\* a call with fresh objects cannot concern the pool; an edit shows in exactly the objects that hold the edited one
+EditIsLocal == last.dirty => \A s \in 1..Len(pool0) : (s \notin last.touched => pool0[s] = prev[s])
 
-\* ---- S2C: the histories, with what the law allows at every call and the pool the caller still owns ----
-RECURSIVE LawOpd(_)
-LawOpd(k) == IF hist[k].on = "t" THEN t ELSE TableOf(CHOOSE o \in Outcomes(LawOpd(k - 1), pool0, hist[k - 1]) : TRUE, t.cols)
-Emit == PrintT(ToJson([t |-> t, pool |-> pool0, snap |-> Canon(pool, t.cols),
-                       hist |-> [k \in 1..Len(hist) |-> [call |-> hist[k], opd |-> IF hist[k].on = "t" THEN [kind |-> "t"] ELSE TabOut(LawOpd(k)),
-                                                         want |-> SetToSeq(Outcomes(LawOpd(k), pool0, hist[k]))]]]))
-\* tables of <= 1 row only get single calls (the extremes); the histories run on the tables that tell filters apart
-Depth(tt) == IF NRows(tt) <= 1 THEN 1 ELSE MaxCalls
-GenBound == /\ Len(hist) <= Depth(t)
-            /\ Len(hist) = Depth(t) => Emit
+\* ---- S2C: the histories, with what the law allows at every call and the pool the caller still owns, under the naming ----
+\* the inputs (tables, pool, calls, edits) are printed in the law's column names together with the naming - the driver renders
+\* them under the naming -, everything the replay is compared with (rt, ru, snap, opd, want, argsnap) in the real names
+RenEntry(h, f) == [call |-> h.call, opd |-> RenOut(h.opd, f), want |-> [j \in 1..Len(h.want) |-> RenOut(h.want[j], f)],
+                   snap |-> Canon(RenPool(h.snap, f), RenCols(t.cols, f)),
+                   argsnap |-> Canon(RenPool(h.args, f), RenCols(t.cols, f))]
+Emit == LET f == Nm(nm).f IN
+        PrintT(ToJson([t |-> t, u |-> Other(t), nm |-> Nm(nm), pool |-> hist[1].snap,
+                       rt |-> RenT(t, f), ru |-> RenT(Other(t), f), snap |-> Canon(RenPool(hist[1].snap, f), RenCols(t.cols, f)),
+                       hist |-> [k \in 1..Len(hist) |-> RenEntry(hist[k], f)]]))
+GenBound == /\ last.n <= Depth(t)
+            /\ (last.n = Depth(t) /\ last.e >= (IF Depth(t) = 1 THEN 0 ELSE MinEdits)) => Emit
 =============================================================================
